@@ -819,6 +819,14 @@ func (p *InlineParser) parseEndBracket(state *inlineState, start int) (end int) 
 		}
 	}
 
+	// A full reference link needs a link label after the closing bracket.
+	// If what follows is not a link label (say, an unclosed "["),
+	// the brackets can still be a shortcut reference link.
+	fullLabel := linkLabel{NullSpan(), NullSpan()}
+	if start+1 < state.spanEnd() && state.source[start+1] == '[' {
+		fullLabel = parseLinkLabel(newInlineByteReader(state.source, state.unparsed[state.unparsedPos:], start+1))
+	}
+
 	switch {
 	case start+2 < state.spanEnd() && state.source[start+1] == '[' && state.source[start+2] == ']':
 		// Collapsed reference link.
@@ -851,20 +859,9 @@ func (p *InlineParser) parseEndBracket(state *inlineState, start int) (end int) 
 		linkNode.span.End = start + 3
 		p.finishLink(state, kind, openDelimIndex)
 		return linkNode.span.End
-	case start+1 < state.spanEnd() && state.source[start+1] == '[':
+	case fullLabel.span.IsValid():
 		// Full reference link.
-		label := parseLinkLabel(newInlineByteReader(state.source, state.unparsed[state.unparsedPos:], start+1))
-		if !label.span.IsValid() {
-			state.addToRoot(&Inline{
-				kind: TextKind,
-				span: Span{
-					Start: start,
-					End:   start + 1,
-				},
-			})
-			state.stack = deleteDelimiterStack(state.stack, openDelimIndex, openDelimIndex+1)
-			return start + 1
-		}
+		label := fullLabel
 		inlineLabel := &Inline{
 			kind: LinkLabelKind,
 			span: label.span,
